@@ -483,12 +483,20 @@ def run_check(pid, tier):
     for line in known:
         print("KNOWN-FINDING: %s" % line)
 
-    o = stage_replays(pid, tier)
+    # self-test only (never on /repo itself): run one stage alone, without the saved replays, to measure what that stage finds
+    only_stage = os.environ.get("VERIF_ONLY_STAGE") if os.environ.get("VERIF_REPO") else None
+    if only_stage:
+        o = StageOutcome("regression_replays")
+        o.notes.append("saved replays skipped (self-test of the stage %s alone)" % only_stage)
+    else:
+        o = stage_replays(pid, tier)
     outcomes.append(o)
     failure = o.failure
     if not failure:
         for stage in PROPS[pid]["stages"]:
             if stage.get(tier) is None:
+                continue
+            if only_stage and stage["name"] != only_stage:
                 continue
             o = STAGE_IMPL[stage["kind"]](pid, stage, tier)
             outcomes.append(o)
@@ -848,7 +856,7 @@ def stage_cgf(pid, stage, tier, replay_path=None):
     for k in range(workers):
         cdir = os.path.join(wd, "corpus-%d" % k)
         os.makedirs(cdir)
-        if k % 2 == 0:
+        if k % 2 == 0 and not (os.environ.get("VERIF_CGF_NOSEED") and os.environ.get("VERIF_REPO")):
             for f in os.listdir(seeds):
                 shutil.copyfile(os.path.join(seeds, f), os.path.join(cdir, f))
         adir = os.path.join(wd, "art-%d" % k) + "/"
